@@ -14,7 +14,13 @@ sys.path.insert(0, os.path.join(HERE, "lib"))
 CHECKS = {}
 for _f in sorted(os.listdir(os.path.join(HERE, "lib"))):
     if _f.startswith("chk_") and _f.endswith(".py"):
-        _m = importlib.import_module(_f[:-3])
+        try:
+            _m = importlib.import_module(_f[:-3])
+        except Exception as _e:
+            sys.stderr.write("note: cannot load %s: %s\n" % (_f, _e))
+            continue
+        if os.environ.get("MANIFEST_ONLY") and _f[4:-3] not in os.environ["MANIFEST_ONLY"].split(","):
+            continue
         for _pid in getattr(_m, "PROPS", []):
             CHECKS[_pid] = _m.MANIFEST[_pid]
 
